@@ -1,11 +1,18 @@
 import SF.Props.C02
 import SF.Lemmas.SpecFacts
 import SF.Lemmas.Cog
+import SF.Props.C04
+import SF.Props.C05
+import SF.Props.C06
+import SF.Lemmas.Invariance
 /-
   C03 — Finite memory: windowed views forget everything older than the window.
   For two histories of possibly different lengths (each at least K long) that agree on their last K values, the view
   reports the same value after either — whatever preceded, however long or large.  Proved from the characterisations
   of C02: the reported value is a function of `lastN N xs` (and of "has the window filled"), nothing else.
+  Also: BinaryEntropy, NET, CTI (K = N); Rsi and MyRSI (K = N+1; MyRSI unless it is holding on a flat window, the
+  exception the statement names); Alma (K = 2N: after 2N values every windowed sample entered with the last weight).
+  Roc and PFE are decided by exact two-history runs only.
 -/
 namespace SF.C03
 open SF SF.Spec
@@ -78,6 +85,60 @@ theorem vsct_suffix (N : Nat) (hN : 0 < N) (xs ys : List α) (hx : N ≤ xs.leng
   have h2 : ¬ ys.length < N - 1 := by omega
   simp [Spec.vsct, Spec.welford, Spec.welfordMean, h1, h2, h, getLast_eq N hN xs ys hx hy h]
 end welford
+
+
+/-! ### the other windowed views of the statement -/
+theorem entropy_suffix [Transc α] (N : Nat) (hN : 0 < N) (xs ys : List α) (h : lastN N xs = lastN N ys) :
+    (bentCore (α := α) N).outAfter xs = (bentCore (α := α) N).outAfter ys := by
+  rw [C02.entropy_eq N hN, C02.entropy_eq N hN]; simp [Spec.entropy, h]
+
+theorem net_suffix (N : Nat) (hN : 0 < N) (xs ys : List α) (h : lastN N xs = lastN N ys) :
+    (netCore (α := α) N).outAfter xs = (netCore (α := α) N).outAfter ys := by
+  rw [C06.net_eq_kendall N hN, C06.net_eq_kendall N hN]; simp [Spec.net, h]
+
+theorem cti_suffix [Transc α] (N : Nat) (hN : 0 < N) (xs ys : List α) (hx : N ≤ xs.length) (hy : N ≤ ys.length)
+    (h : lastN N xs = lastN N ys) : (ctiCore (α := α) N).outAfter xs = (ctiCore (α := α) N).outAfter ys := by
+  rw [C06.cti_eq_pearson N hN xs hx, C06.cti_eq_pearson N hN ys hy, h]
+
+/-- Rsi depends only on the last N+1 values (N changes) -/
+theorem rsi_suffix (N : Nat) (hN : 0 < N) (xs ys : List α) (hx : N + 1 ≤ xs.length) (hy : N + 1 ≤ ys.length)
+    (h : lastN (N + 1) xs = lastN (N + 1) ys) : (rsiCore (α := α) N).outAfter xs = (rsiCore (α := α) N).outAfter ys := by
+  rw [C05.rsi_eq N hN, C05.rsi_eq N hN]
+  have hx' : ¬ (xs.length < N || xs.isEmpty) := by
+    have : xs ≠ [] := by intro e; subst e; simp at hx
+    simp [this]; omega
+  have hy' : ¬ (ys.length < N || ys.isEmpty) := by
+    have : ys ≠ [] := by intro e; subst e; simp at hy
+    simp [this]; omega
+  simp only [Spec.rsi, hx', hy', if_false, gains, losses, Invar.lastN_changes N xs hx, Invar.lastN_changes N ys hy, h]
+
+/-- MyRSI depends only on the last N+1 values, unless it is explicitly holding its previous output (flat window: G+L = 0) -/
+theorem myrsi_suffix (N : Nat) (hN : 0 < N) (xs ys : List α) (hx : N + 1 ≤ xs.length) (hy : N + 1 ≤ ys.length)
+    (h : lastN (N + 1) xs = lastN (N + 1) ys) (hflat : gains N xs + losses N xs ≠ 0) :
+    (myRsiCore (α := α) N).outAfter xs = (myRsiCore (α := α) N).outAfter ys := by
+  rw [C05.myrsi_eq N hN, C05.myrsi_eq N hN]
+  obtain ⟨hg, hl⟩ := Invar.gains_suffix N xs ys hx hy h
+  have hx' : ¬ xs.length < N := by omega
+  have hy' : ¬ ys.length < N := by omega
+  simp only [Spec.myRsi, hx', hy', if_false]
+  have hxne : xs ≠ [] := by intro e; subst e; simp at hx
+  have hyne : ys ≠ [] := by intro e; subst e; simp at hy
+  obtain ⟨xi, xl, rfl⟩ := (List.eq_nil_or_concat xs).resolve_left hxne
+  obtain ⟨yi, yl, rfl⟩ := (List.eq_nil_or_concat ys).resolve_left hyne
+  simp only [List.concat_eq_append] at *
+  rw [C05.myrsi_hold_step, C05.myrsi_hold_step, if_neg hflat, if_neg (by rw [← hg, ← hl]; exact hflat), hg, hl]
+
+/-- Alma: after 2N values every sample in the window entered with the last weight; the output depends on the window only -/
+theorem alma_suffix [Transc α] (N : Nat) (hN : 0 < N) (sigma offset : α) (xs ys : List α) (hx : 2 * N ≤ xs.length) (hy : 2 * N ≤ ys.length)
+    (h : lastN N xs = lastN N ys) :
+    (almaCore (α := α) N sigma offset).outAfter xs = (almaCore (α := α) N sigma offset).outAfter ys := by
+  rw [C04.alma_eq N hN, C04.alma_eq N hN]
+  have hxne : xs ≠ [] := by intro e; subst e; simp at hx; omega
+  have hyne : ys ≠ [] := by intro e; subst e; simp at hy; omega
+  have hl : (lastN N ys).length = N := by rw [lastN_length]; exact Nat.min_eq_left (by omega)
+  have kx : ∀ j, min (xs.length - (lastN N ys).length + j) (N - 1) = N - 1 := by intro j; rw [hl]; omega
+  have ky : ∀ j, min (ys.length - (lastN N ys).length + j) (N - 1) = N - 1 := by intro j; rw [hl]; omega
+  simp only [Spec.alma, hxne, hyne, List.isEmpty_iff, if_false, h, kx, ky]
 
 /-- the stated form "two histories with distinct prefixes and a common suffix": `p ++ w` and `p' ++ w` -/
 theorem sma_forgets_prefix (N : Nat) (hN : 0 < N) (p p' w : List α) (hw : N ≤ w.length) :
